@@ -1,13 +1,14 @@
 """C15 - subset export is closed under ancestors and contains nothing else"""
 LEVEL = "other"
 TRUSTED = ["reference semantics written from the property statement (native/pure_bounded.py)"]
-EXPLANATION = ("BOUNDED STAND-IN ONLY: real filter_graph_with_ancestors / export_to_csv / export_to_geff on forests with <= 4 (5) nodes and sampled node subsets, with and without segmentation; exported ids, parent column, geff nodes/edges and the exported label array are compared with 'selection + all ancestors, every edge among them, masks of exactly those nodes'.")
+EXPLANATION = ("PROVED (SMT, unbounded, symbolic graph and selection): filter_graph_with_ancestors returns exactly the selection plus all ancestors (loop invariant over the set iteration; networkx.ancestors modelled as the transitive closure; closure and minimality as lemma M5), closed under parents, graph untouched. BOUNDED STAND-IN for the rest: real filter_graph_with_ancestors / export_to_csv / export_to_geff on forests with <= 4 (5) nodes and sampled node subsets, with and without segmentation; exported ids, parent column, geff nodes/edges and the exported label array are compared with 'selection + all ancestors, every edge among them, masks of exactly those nodes'.")
 ASSUMPTIONS = ["bounded stand-in only: exhaustive/sampled over the stated finite space, not a proof"]
-NOT_UNDER_CONTRACT = ["filter_graph_with_ancestors", "export_to_csv", "export_to_geff (chunk tiling loop)"]
+NOT_UNDER_CONTRACT = ["export_to_csv (row loop)", "export_to_geff (subgraph + chunk tiling loop)"]
 
 
 def units(tier):
-    return []
+    from contracts import exports
+    return exports.units()
 
 
 def bounded(tier, seed):
